@@ -1,5 +1,111 @@
-"""Self-test of the checkers: firing and silent variants (filled in later)."""
+"""Self-test of the checkers (thorough tier): firing and silent variants, computed from the current
+tree as in-memory overlays and run on up to 16 workers.
+
+* a *firing* variant breaks one rule instance (release deleted, guard weakened, index off by one ...);
+  the checker must report a new finding of the expected rule naming the expected construct;
+* a *silent* variant is a behaviour-preserving rewrite (renaming, algebraically equal guard, added
+  logging, early-return ↔ nested-if ...); the checker must report nothing new.
+A firing variant that is not reported, or a silent one that is, means the checker is broken: the
+property verdict is not believed (exit 2).  Variants whose anchor vanished are reported as stale.
+"""
+from __future__ import annotations
+
+import multiprocessing as mp
+import os
+import random
+import time
+import traceback
+
+from ..model import AnalysisError, Project
+
+
+def _baseline_keys(res):
+    return {(f.rule, f.construct) for f in res.findings if not f.advisory}
+
+
+def _run_variant(args):
+    prop, repo, idx = args
+    from . import variants as V
+    from .. import cli
+    from .mutate import Stale
+    v = V.for_prop(prop)[idx]
+    t0 = time.time()
+    try:
+        base = Project(repo)
+        overlay = v.build(base)
+    except Stale as e:
+        return idx, 'stale', str(e), []
+    except Exception as e:      # a generator bug is a broken self-test, not a stale anchor
+        return idx, 'error', f'variant generator failed: {e!r}', []
+    try:
+        mod = cli.load_rule(prop)
+        res = mod.run(Project(repo, overlay), 'quick')
+        found = sorted(_baseline_keys(res))
+        return idx, 'ran', '', found
+    except AnalysisError as e:
+        return idx, 'analysis-error', str(e), []
+    except Exception:
+        return idx, 'error', traceback.format_exc()[-400:], []
 
 
 def run(prop, repo, seed, res):
-    res.selftest = {'status': 'not yet implemented'}
+    from . import variants as V
+    vs = V.for_prop(prop)
+    base = _baseline_keys(res)
+    order = list(range(len(vs)))
+    random.Random(seed).shuffle(order)
+    jobs = [(prop, repo, i) for i in order]
+    t0 = time.time()
+    if not jobs:
+        res.selftest = {'variants': 0}
+        return
+    nproc = min(16, len(jobs), os.cpu_count() or 1)
+    with mp.get_context('fork').Pool(nproc) as pool:
+        out = pool.map(_run_variant, jobs, chunksize=1)
+    killed = missed = silent_ok = false_alarm = stale = errors = 0
+    details = []
+    for idx, status, msg, found in out:
+        v = vs[idx]
+        new = [k for k in found if k not in base]
+        rec = {'variant': v.name, 'kind': v.kind, 'status': status}
+        if status == 'stale':
+            stale += 1
+            rec['note'] = msg
+        elif status == 'error':
+            errors += 1
+            rec['note'] = msg
+        elif v.kind == 'fire':
+            if status == 'analysis-error':
+                # fail-closed is an acceptable reaction to a broken tree only when the variant says so
+                if v.accept_analysis_error:
+                    killed += 1
+                    rec['result'] = 'killed (analysis error, fail closed)'
+                else:
+                    missed += 1
+                    rec['result'] = f'analysis error instead of a finding: {msg}'
+            else:
+                hits = [k for k in new if k[0].startswith(v.rule) and (v.where in k[1])]
+                if hits:
+                    killed += 1
+                    rec['result'] = f'killed by {hits[0][0]} {hits[0][1]}'
+                else:
+                    missed += 1
+                    rec['result'] = f'NOT reported (new findings: {new[:3]})'
+        else:
+            if status == 'analysis-error' or new:
+                false_alarm += 1
+                rec['result'] = f'FALSE ALARM on a behaviour-preserving rewrite: {msg or new[:3]}'
+            else:
+                silent_ok += 1
+                rec['result'] = 'silent'
+        details.append(rec)
+    res.selftest = {'variants': len(vs), 'firing_killed': killed, 'firing_missed': missed, 'silent_ok': silent_ok,
+                    'silent_false_alarm': false_alarm, 'stale': stale, 'errors': errors, 'wall_s': round(time.time() - t0, 2),
+                    'details': sorted(details, key=lambda d: d['variant'])}
+    bad = [d for d in details if d.get('result', '').startswith(('NOT reported', 'FALSE ALARM', 'analysis error')) or d['status'] == 'error']
+    for d in bad:
+        print(f'SELFTEST {prop} {d["variant"]}: {d.get("result") or d.get("note")}')
+    print(f'SELFTEST {prop}: {len(vs)} variants: {killed} firing killed, {missed} missed, {silent_ok} silent ok, '
+          f'{false_alarm} false alarms, {stale} stale, {errors} errors in {res.selftest["wall_s"]}s')
+    if missed or false_alarm or errors:
+        raise AnalysisError(f'self-test failed for {prop}: {missed} firing variant(s) not reported, {false_alarm} false alarm(s), {errors} error(s)')
